@@ -274,6 +274,10 @@ func checkC04(w *Worker) {
 		if x.Choose(2, "input:crlf") == 1 {
 			eol = "\r\n"
 		}
+		if eol == "\r\n" && nrec == 150 {
+			// the two bytes of a line end may arrive in different reads: shift the whole file through every alignment
+			sb.WriteString("# " + strings.Repeat("p", x.Choose(26, "layout:shift")) + eol)
+		}
 		for _, r := range f {
 			sb.WriteString(r.Header + ":" + eol)
 			for _, it := range r.Items {
